@@ -1710,3 +1710,122 @@ Proof.
   exists h. split; auto. apply bc_post_directed_sound; auto.
   apply wf_b_sound. exact (proj1 (forallb_forall wf_b small_digraphs) small_digraphs_wf g Hg).
 Qed.
+
+(** * Meaning of [bc_post] (undirected case) *)
+Lemma remove_edge_length g a b : length (remove_edge g a b) = length g.
+Proof. unfold remove_edge, nodes. rewrite map_length, seq_length. reflexivity. Qed.
+
+Lemma remove_edge_row g a b x : x < length g ->
+  row (remove_edge g a b) x = if x =? a then filter (fun y => negb (y =? b)) (row g x) else row g x.
+Proof.
+  intros H. unfold remove_edge, nodes. unfold row at 1.
+  exact (nth_map_seq (fun i => if i =? a then filter (fun y => negb (y =? b)) (row g i) else row g i) (length g) x [] H).
+Qed.
+
+Lemma remove_edge_edge g a b x y :
+  edge g x y -> ~ (x = a /\ y = b) -> edge (remove_edge g a b) x y.
+Proof.
+  intros He Hn. unfold edge in *. assert (Hx : x < length g) by (eapply row_nonempty_lt; eauto).
+  rewrite remove_edge_row by exact Hx. destruct (Nat.eqb_spec x a) as [E|E]; auto.
+  apply filter_In. split; auto. apply negb_true_iff. apply Nat.eqb_neq. intros E'. apply Hn. auto.
+Qed.
+
+Lemma chain_mono_In (E F : nat -> nat -> Prop) l :
+  (forall a b, In a l -> In b l -> E a b -> F a b) -> chain E l -> chain F l.
+Proof.
+  induction l as [|x t IH]; intros H Hc; [exact I|].
+  apply chain_cons in Hc. destruct Hc as [A B]. apply chain_cons. split.
+  - intros Hne. apply H; [left; reflexivity | right; destruct t; [congruence | left; reflexivity] | apply A; exact Hne].
+  - apply IH; auto. intros a b Ha Hb. apply H; right; assumption.
+Qed.
+
+Lemma acyclic_und_b_sound h : acyclic_und_b h = true -> ~ exists c, ucycle h c.
+Proof.
+  unfold acyclic_und_b. intros H. apply andb_true_iff in H. destruct H as [Hl H].
+  apply negb_true_iff in Hl. pose proof (proj1 (has_loops_false h) Hl) as Hlf.
+  rewrite forallb_forall in H. intros [c [Hcy Hl2]]. pose proof Hcy as [Hne [Hnd Hch]].
+  destruct c as [|u [|v [|w t]]]; [congruence | | simpl in Hl2; lia |].
+  - simpl in Hch. apply (Hlf u). tauto.
+  - assert (Huv : In v (row h u)) by (simpl in Hch; tauto).
+    assert (Hu : u < length h) by (eapply row_nonempty_lt; eauto).
+    specialize (H u (proj2 (nodes_In h u) Hu)). rewrite forallb_forall in H. specialize (H v Huv).
+    apply negb_true_iff in H.
+    set (h' := remove_edge (remove_edge h u v) v u) in *.
+    assert (Hlen : length h' = length h) by (unfold h'; rewrite !remove_edge_length; reflexivity).
+    (* distinctness facts *)
+    inversion Hnd as [|? ? Hu_notin Hnd1]; subst. inversion Hnd1 as [|? ? Hv_notin Hnd2]; subst.
+    assert (Huv_ne : u <> v) by (intros E; apply Hu_notin; left; auto).
+    assert (Hkeep : forall a b, edge h a b -> ~ (a = u /\ b = v) -> ~ (a = v /\ b = u) -> edge h' a b).
+    { intros a b He N1 N2. unfold h'. apply remove_edge_edge; [apply remove_edge_edge|]; auto. }
+    change ((u :: v :: w :: t) ++ [hd 0 (u :: v :: w :: t)]) with (u :: v :: (w :: t ++ [u])) in Hch.
+    apply chain_cons in Hch. destruct Hch as [_ Hch]. apply chain_cons in Hch. destruct Hch as [Hvw Hch].
+    specialize (Hvw ltac:(discriminate)). cbn [hd app] in Hvw.
+    assert (Hch' : chain (edge h') (v :: (w :: t ++ [u]))).
+    { apply chain_cons. split.
+      - intros _. cbn [hd app]. apply Hkeep; auto.
+        + intros [E _]. congruence.
+        + intros [_ E]. subst w. apply Hu_notin. right. left. reflexivity.
+      - eapply chain_mono_In; [|exact Hch]. intros a b Ha Hb He.
+        assert (Hav : a <> v).
+        { intros E; subst a. change (w :: t ++ [u]) with ((w :: t) ++ [u]) in Ha. apply in_app_or in Ha.
+          destruct Ha as [Ha|[Ha|[]]]; [apply Hv_notin; exact Ha | congruence]. }
+        assert (Hbv : b <> v).
+        { intros E; subst b. change (w :: t ++ [u]) with ((w :: t) ++ [u]) in Hb. apply in_app_or in Hb.
+          destruct Hb as [Hb|[Hb|[]]]; [apply Hv_notin; exact Hb | congruence]. }
+        apply Hkeep; auto; intros [E1 E2]; congruence. }
+    pose proof (chain_reach_last (edge h') v (w :: t ++ [u]) Hch') as Hr.
+    assert (Elast : last (v :: w :: t ++ [u]) 0 = u).
+    { change (v :: w :: t ++ [u]) with ((v :: w :: t) ++ [u]). apply last_last. }
+    rewrite Elast in Hr.
+    assert (Ht : nthb (reach_from h' [v]) u = true); [|congruence].
+    apply reach_from_iff; [lia|]. exists v. split; [left; reflexivity|]. split; auto.
+    rewrite Hlen. eapply row_nonempty_lt. exact Hvw.
+Qed.
+
+Theorem bc_post_undirected_sound g root h : wf_graph g -> bc_post g root false h = true ->
+  length h = length g /\
+  (forall u v, edge h u v -> edge g u v) /\
+  (forall u v, edge h u v -> edge h v u) /\
+  (~ exists c, ucycle h c) /\
+  (forall r v, In r root -> r < length g -> reach (edge g) r v -> exists r', In r' root /\ reach (edge h) r' v).
+Proof.
+  intros Hwf H. unfold bc_post in H. cbn [orb acyclic_b] in H.
+  apply andb_true_iff in H. destruct H as [H H4]. apply andb_true_iff in H. destruct H as [H H3].
+  apply andb_true_iff in H. destruct H as [H1 H2].
+  destruct (subgraph_b_sound h g H1) as [Hlen Hsub]. split; auto. split; [exact Hsub|].
+  split; [exact (proj1 (is_symmetric_spec h) H3)|].
+  split; [apply acyclic_und_b_sound; exact H2|]. apply keeps_reach_b_sound; auto.
+Qed.
+
+Lemma small_undirected_wf : forallb wf_b small_undirected = true.
+Proof. vm_cast_no_check (eq_refl true). Qed.
+
+Theorem break_cycles_undirected_ok_upto_4_prop_lemma (vo : bool) (g : graph) (root : list nat) (directed : option bool) :
+  In g small_undirected -> In root (nonempty_sublists (nodes g)) -> 0 < out_degree g root ->
+  (vo = false -> cycles_covered g root = true) ->
+  directed = None \/ directed = Some false ->
+  exists h, bc_run vo directed false g root = Ok h /\
+    length h = length g /\
+    (forall u v, edge h u v -> edge g u v) /\
+    (forall u v, edge h u v -> edge h v u) /\
+    (~ exists c, ucycle h c) /\
+    (forall r v, In r root -> r < length g -> reach (edge g) r v -> exists r', In r' root /\ reach (edge h) r' v).
+Proof.
+  intros Hg Hr Hd Hc Hf.
+  destruct (break_cycles_undirected_ok_upto_4_lemma vo g root directed Hg Hr Hd Hc Hf) as [h [H1 H2]].
+  exists h. split; auto. apply bc_post_undirected_sound; auto.
+  apply wf_b_sound. exact (proj1 (forallb_forall wf_b small_undirected) small_undirected_wf g Hg).
+Qed.
+
+Theorem break_cycles_undirected_repaired_lemma (g : graph) (root : list nat) (directed : option bool) :
+  In g small_undirected -> In root (nonempty_sublists (nodes g)) -> 0 < out_degree g root ->
+  directed = None \/ directed = Some false ->
+  exists h, bc_run true directed false g root = Ok h /\
+    length h = length g /\
+    (forall u v, edge h u v -> edge g u v) /\
+    (forall u v, edge h u v -> edge h v u) /\
+    (~ exists c, ucycle h c) /\
+    (forall r v, In r root -> r < length g -> reach (edge g) r v -> exists r', In r' root /\ reach (edge h) r' v).
+Proof.
+  intros Hg Hr Hd Hf. apply break_cycles_undirected_ok_upto_4_prop_lemma; auto. discriminate.
+Qed.
